@@ -6,7 +6,10 @@ import (
 	"errors"
 	"math/rand"
 	"servitor/ansi"
+	"servitor/config"
 	"servitor/style"
+	"strings"
+	"unicode"
 )
 
 /* style expressions: ["t", text] | ["cat", a, b] | [fn, a] */
@@ -36,11 +39,34 @@ func evalSE(e []any) string {
 	panic("bad style expression")
 }
 
+/* the colours the process runs with, as the style layer reads them (default or configured) */
+func processColors() []any {
+	c := config.Parsed.Style.Colors
+	return []any{c.Primary, c.Error, c.Highlight, c.Code}
+}
+
+var indentPrefixes = []string{"  ", "", " ", "▌", "→ ", "        ", "\x1b[1m▌\x1b[0m"}
+
 func applyLayout(s string, steps []any) string {
 	for _, raw := range steps {
 		st := raw.([]any)
 		w := I(Op{"v": st[1]}, "v")
+		a := 0
+		if len(st) > 2 {
+			a = I(Op{"v": st[2]}, "v")
+		}
 		switch st[0].(string) {
+		/* the same steps with their second argument chosen by the generator */
+		case "snipn":
+			s = ansi.Snip(s, w, a, style.Color("…"))
+		case "headern":
+			s = style.Header(s, uint(a))
+		case "indentp":
+			s = ansi.Indent(s, indentPrefixes[a%len(indentPrefixes)], w%2 == 0)
+		case "codeblock":
+			s = style.CodeBlock(s)
+		case "style":
+			s = evalSE([]any{styleFns[a%len(styleFns)], []any{"t", s}})
 		case "wrap":
 			s = ansi.Wrap(s, w)
 		case "dumbwrap":
@@ -68,6 +94,7 @@ func applyLayout(s string, steps []any) string {
 
 func init() {
 	execs["styleexpr"] = func(op Op) any {
+		op["colors"] = processColors()
 		return applyLayout(evalSE(L(op, "e")), L(op, "layout"))
 	}
 	execs["problem"] = func(op Op) any {
@@ -77,9 +104,88 @@ func init() {
 	groups["C01misc"] = group{gen: genC01misc}
 }
 
+var styleFns = []string{"bold", "italic", "underline", "strike", "color", "red", "code", "highlight"}
+
+/*
+texts for the leaves: sentences long enough for the layout steps to act on, line breaks at
+
+	the start, at the end and doubled, blanks of every kind around them
+*/
+func genSELeaf(r *rand.Rand) string {
+	/* the style layer only ever sees text that went through Scrub: no control characters */
+	return strings.Map(func(c rune) rune {
+		if c != '\n' && unicode.IsControl(c) {
+			return ' '
+		}
+		return c
+	}, genSELeafRaw(r))
+}
+
+func genSELeafRaw(r *rand.Rand) string {
+	switch weighted(r, 4, 2, 2, 1) {
+	case 0:
+		n := 2 + r.Intn(12)
+		ws := []string{}
+		for i := 0; i < n; i++ {
+			ws = append(ws, pick(r, []string{"the", "quick", "brown", "fox", "jumps", "over", "a", "lazy", "dog", "漢字", "https://example.org/a/long/path/that/does/not/fit", "x", "é😀", "—"}))
+		}
+		return strings.Join(ws, pick(r, []string{" ", " ", " ", "  ", "\n", " \n", "\t", "\u3000"}))
+	case 1:
+		return pick(r, []string{"\nstarts with a break", "ends with a break\n", "\n\n", "a\n\nb", "\n \n", " \n ", "a \nb", "one\ntwo\nthree\nfour\nfive\nsix", "   ", "\u200b", "a\u200bb", "\u00a0"})
+	case 2:
+		return string(pick(r, visiblePool)) + string(pick(r, spacePool)) + string(pick(r, nonSpacePool)) + string(pick(r, widePool))
+	}
+	return genRawSafe(r, 1+r.Intn(30))
+}
+
+/* random ESC-free text (what remains after Scrub): printable characters, blanks, newlines */
+func genRawSafe(r *rand.Rand, n int) string {
+	out := make([]rune, n)
+	for i := range out {
+		switch weighted(r, 8, 2, 1) {
+		case 0:
+			out[i] = pick(r, visiblePool)
+		case 1:
+			out[i] = ' '
+		case 2:
+			out[i] = '\n'
+		}
+	}
+	return string(out)
+}
+
+/* styling around text that is already styled, across line breaks, at least `min` levels deep */
+func genSEDeep(r *rand.Rand, min int) []any {
+	var e []any
+	switch r.Intn(3) {
+	case 0:
+		e = []any{"t", genSELeaf(r)}
+	case 1:
+		e = []any{"cat", []any{pick(r, styleFns), []any{"t", genSELeaf(r)}}, []any{"t", genSELeaf(r)}}
+	case 2:
+		e = []any{"cat", []any{"t", genSELeaf(r)}, []any{"cat", []any{pick(r, styleFns), []any{"t", "mid\ndle"}}, []any{"t", genSELeaf(r)}}}
+	}
+	depth := min + r.Intn(4)
+	for d := 0; d < depth; d++ {
+		e = []any{pick(r, styleFns), e}
+		if r.Intn(3) == 0 {
+			/* a sibling on either side: concatenation inside the next level */
+			if r.Intn(2) == 0 {
+				e = []any{"cat", e, genSE(r, 3)}
+			} else {
+				e = []any{"cat", genSE(r, 3), e}
+			}
+		}
+	}
+	return e
+}
+
 func genSE(r *rand.Rand, depth int) []any {
 	if depth > 4 || r.Intn(3) == 0 {
 		words := []string{"a", "hello world", "x\ny", " ", "", "two  spaces", "é漢😀", "m[0;1", "\n", "tab    here", "line one\nline two\n", "a\n\u0301b", "e\u0301\n\u0308", "\u0301"}
+		if r.Intn(4) == 0 {
+			return []any{"t", genSELeaf(r)}
+		}
 		return []any{"t", pick(r, words)}
 	}
 	if r.Intn(3) == 0 {
@@ -88,13 +194,50 @@ func genSE(r *rand.Rand, depth int) []any {
 	return []any{pick(r, []string{"bold", "italic", "underline", "strike", "color", "red", "code", "highlight"}), genSE(r, depth+1)}
 }
 
+func genLayoutStep(r *rand.Rand) []any {
+	w := 1 + r.Intn(24)
+	switch r.Intn(8) {
+	case 0:
+		w = pick(r, []int{0, 1, 2, 40, 76, 80, 120, 250})
+	}
+	switch weighted(r, 11, 2, 2, 2, 1, 2) {
+	case 1:
+		return []any{"snipn", w, pick(r, []int{0, 1, 2, 3, 4, 10})}
+	case 2:
+		return []any{"headern", w, r.Intn(8)}
+	case 3:
+		return []any{"indentp", w, r.Intn(len(indentPrefixes))}
+	case 4:
+		return []any{"codeblock", w}
+	case 5:
+		/* a style function applied after the layout: around padding, prefixes, the ellipsis */
+		return []any{"style", w, r.Intn(len(styleFns))}
+	}
+	name := pick(r, []string{"wrap", "wrap", "dumbwrap", "pad", "indent", "snip", "quote", "header", "bullet", "link", "linkblock"})
+	if (name == "link" || name == "linkblock") && r.Intn(4) == 0 {
+		w = pick(r, []int{0, 9, 10, 99, 100, 1234567890})
+	}
+	return []any{name, w}
+}
+
 func genC14(r *rand.Rand, n int, emit func(Op)) {
 	for i := 0; i < n; i++ {
 		layout := []any{}
-		for k := r.Intn(4); k > 0; k-- {
-			layout = append(layout, []any{pick(r, []string{"wrap", "wrap", "dumbwrap", "pad", "indent", "snip", "quote", "header", "bullet", "link", "linkblock"}), 1 + r.Intn(24)})
+		steps := r.Intn(4)
+		if r.Intn(10) == 0 {
+			steps = 4 + r.Intn(4)
 		}
-		emit(Op{"op": "styleexpr", "e": genSE(r, 0), "layout": layout})
+		for k := steps; k > 0; k-- {
+			layout = append(layout, genLayoutStep(r))
+		}
+		var e []any
+		switch weighted(r, 3, 2) {
+		case 0:
+			e = genSE(r, 0)
+		case 1:
+			e = genSEDeep(r, 3)
+		}
+		emit(Op{"op": "styleexpr", "e": e, "layout": layout})
 	}
 }
 
